@@ -451,6 +451,12 @@ def crowd_histories(chk):
     return H
 
 
+F07_EXPLAINS = {"wire-differs-from-issued-bytes", "responses-not-the-ordered-concatenation", "response-count", "response-built-from-a-reused-buffer",
+                "ill-formed-message-on-the-wire", "not-closed-although-close-requested", "closed-before-the-final-response", "closed-although-keep-alive",
+                "no-interim-response-for-a-later-request", "no-interim-response-before-waiting", "more-than-one-100", "body-not-delivered-after-continue",
+                "closed-after-interim-response", "continue-handler-response-missing", "head-translation", "closed-before-the-response-was-out"}
+
+
 def run_sim(chk, flavour="plain", only=None, H=None, extra=None, label="h_sim"):
     keep = H is not None
     H = H if keep else histories(chk)
@@ -468,8 +474,10 @@ def run_sim(chk, flavour="plain", only=None, H=None, extra=None, label="h_sim"):
             if sig == "crash" and "UNDEFINED" in mo and "AddressSanitizer: heap-use-after-free" in io:
                 # the harness reads, as asio would, a transmit buffer the library has already reassigned
                 sig = "send-while-a-write-is-in-flight"
-            elif sig not in ("crash", "exception-into-event-loop") and chk.pid in ("C03", "C04", "C09", "C14", "C15", "C19"):
-                # open findings that make these histories fail: classify, do not hide anything else
+            elif sig in F07_EXPLAINS and chk.pid in ("C03", "C04", "C09", "C14", "C15", "C19"):
+                # open findings that make these histories fail: classify what they explain (a response lost, late, built from
+                # a reused buffer, its close decision lost), and nothing else - a socket shut down or closed under a pending
+                # write, lifecycle and collection errors are not consequences of F07 / F10 and stay what they are
                 if "UNDEFINED" in mo:
                     sig = "send-while-a-write-is-in-flight"
                 elif "app=async" in h["opts"]:
